@@ -1,4 +1,6 @@
 import CsVerif.Model.C16
+import CsVerif.Model.C16Gen
+import CsVerif.Model.PyUShow
 /-! Line-protocol driver for the C16 model.
 
 `p <data>` / `pw <data> <ignored…>` → `parse_raw_http(data)`:
@@ -8,6 +10,11 @@ import CsVerif.Model.C16
 `qsl <qs>`   → `parse_qsl(qs)`: `ok <n> (<k> <v>)*`
 `int <b>`    → `int(b.decode())`
 `uq <b>`     → `unquote_to_bytes(b)`
+`gp <data>` / `gpw <data> <ignored…>` → the definition TRANSLATED from the source of `parse_raw_http` (Gen/PyC2U.lean, with the
+  external functions urlsplit / parse_qsl instantiated by the sub-models), rendered from `PyU.V` in the format of `p`;
+  a value of an unexpected shape is rendered `?…` (and so differs from the real code)
+`pyu <op> <operands>` → one operation of the run-time library `PyU` (those added for c2.py) on operands in the notation of
+  Model/PyUShow.lean
 -/
 namespace C16
 open Proto
@@ -23,6 +30,143 @@ def showMsg : Msg → String
 
 def showSplit (r : SplitResult) : String :=
   s!"{showBytes r.scheme} {showBytes r.netloc} {showBytes r.path} {showBytes r.query} {showBytes r.fragment}"
+
+/-! ### `g-*` streams: the translated definition -/
+
+def vBytes? : PyU.V → Option Bytes
+  | .bytes b => some b
+  | _ => none
+
+def vDict? : PyU.V → Option (List (Bytes × Bytes))
+  | .dict ks vs =>
+    if ks.length == vs.length then
+      (ks.zip vs).mapM fun kv => do
+        let k ← vBytes? kv.1
+        let v ← vBytes? kv.2
+        pure (k, v)
+    else none
+  | _ => none
+
+def vMsg? : PyU.V → Option Msg
+  | .inst c [a1, a2, a3, a4, a5] =>
+    if c == Gen.PyC2U.HttpRequest then do
+      let m ← vBytes? a1
+      let u ← vBytes? a2
+      let ps ← vDict? a3
+      let hs ← vDict? a4
+      let b ← vBytes? a5
+      pure (.request m u ps hs b)
+    else if c == Gen.PyC2U.HttpResponse then do
+      let st ← (match a1 with | .int n => some n | _ => none)
+      let hs ← vDict? a2
+      let r ← vBytes? a3
+      let b ← vBytes? a4
+      if a5 == .none then pure (.response st r hs b) else none
+    else none
+  | _ => none
+
+def vMsg (v : PyU.V) : String :=
+  match vMsg? v with
+  | some m => showMsg m
+  | none => "?msg"
+
+/-! ### `pyu` stream: the operations of PyU.lean added for c2.py, on operands of all kinds -/
+
+def classes : List PyU.Cls :=
+  [Gen.PyC2U.HttpRequest, Gen.PyC2U.HttpResponse, Gen.PyC2U.C2Data, Gen.PyC2U.ClientC2Data, Gen.PyC2U.ServerC2Data,
+   Gen.PyC2U.SplitResultBytes]
+
+def clsOf (cid : Nat) : Option PyU.Cls := classes.find? (·.cid == cid)
+
+def vTok (s : String) : Option PyU.V := PyU.vTok (fun _ => none) clsOf s
+
+def tyOf : PyU.V → Option PyU.Ty
+  | .int 0 => some .int
+  | .int 1 => some .bool
+  | .int 2 => some .bytes
+  | .int 3 => some .str
+  | .int 4 => some .list
+  | .int 5 => some .tuple
+  | .int 6 => some .dict
+  | .int n => if n ≥ 100 then (clsOf (n - 100).toNat).map .cls else none
+  | _ => none
+
+def strOf : PyU.V → Option String
+  | .str cs => some (String.ofList (cs.map Char.ofNat))
+  | _ => none
+
+open PyU in
+def pyuStep : List String → String
+  | [op, a] =>
+    match vTok a with
+    | none => "bad-op"
+    | some a =>
+      match op with
+      | "listof" => showPy vShow (listOf a)
+      | "slicerev" => showPy vShow (sliceRev a)
+      | "upper" => showPy vShow (PyU.upper a)
+      | "lower" => showPy vShow (PyU.lower a)
+      | "decascii" => showPy vShow (decodeAscii a)
+      | "decasciiign" => showPy vShow (decodeAsciiIgnore a)
+      | "encutf8" => showPy vShow (encodeUtf8 a)
+      | "enclatin1" => showPy vShow (encodeLatin1 a)
+      | "encascii" => showPy vShow (encodeAscii a)
+      | "int" => showPy vShow (intOf Gen.PyC2U.intTables a)
+      | "fmtr" => showPy (fun t => vShow (.str t)) (fmtR a)
+      | "fmts" => showPy (fun t => vShow (.str t)) (fmtS a)
+      | "truthy" => vShow (.bool (truthy a))
+      | "len" => showPy vShow (PyU.len a)
+      | "iter" => showPy (fun l => vShow (.list l)) (iterList a)
+      | "hashable" => showPy (fun _ => "T") (mkDict [(a, .none)])
+      | _ => "bad-op"
+  | [op, a, b] =>
+    match vTok a, vTok b with
+    | some a, some b =>
+      match op with
+      | "split" => showPy vShow (PyU.split a b)
+      | "startswith" => showPy vShow (startswith a b)
+      | "eq" => vShow (.bool (PyU.eq a b))
+      | "getitem" => showPy vShow (getItem a b)
+      | "contains" => showPy (fun r => vShow (.bool r)) (contains a b)
+      | "getattr" =>
+        match strOf b with
+        | some n => showPy vShow (getAttr a n)
+        | none => "bad-op"
+      | "isinstance" =>
+        match b with
+        | .list cs =>
+          match cs.mapM tyOf with
+          | some tys => vShow (.bool (isInstance a tys))
+          | none => "bad-op"
+        | _ => "bad-op"
+      | _ => "bad-op"
+    | _, _ => "bad-op"
+  | [op, a, b, c] =>
+    match vTok a, vTok b, vTok c with
+    | some a, some b, some c =>
+      match op with
+      | "setitem" => showPy vShow (setItem a b c)
+      | "insert" => showPy vShow (PyU.insert a b c)
+      | "slice" => showPy vShow (PyU.slice a b c)
+      | "replace" =>
+        match strOf b with
+        | some n => showPy vShow (replace a [(n, c)])
+        | none => "bad-op"
+      | _ => "bad-op"
+    | _, _, _ => "bad-op"
+  | _ => "bad-op"
+
+def gstep : List String → String
+  | ["gp", d] =>
+    match bytesTok d with
+    | some d => showPy vMsg (C16Gen.parseRawHttpG (.bytes d))
+    | none => "bad-op"
+  | "gpw" :: d :: _ =>
+    match bytesTok d with
+    | some d => showPy vMsg (C16Gen.parseRawHttpG (.bytes d))
+    | none => "bad-op"
+  | "pyu" :: rest => pyuStep rest
+  | _ => "bad-op"
 
 def step : List String → String
   | ["p", d] =>
@@ -49,6 +193,6 @@ def step : List String → String
     match bytesTok d with
     | some d => showBytes (unquote d)
     | none => "bad-op"
-  | _ => "bad-op"
+  | ws => gstep ws
 
 end C16
